@@ -160,6 +160,9 @@ var c09Ops = []string{
 	`out.append(decode("[1, 2]", "json"))`,
 	`import shared_mod; out.append(shared_mod.triple(7))`,
 	`from shared_mod import triple as tr; out.append(tr(2))`,
+	`import statemod; statemod.bump(); statemod.bump(); out.append(statemod.count)`,
+	`import statemod as sm; out.append(sm.bump() + sm.count)`,
+	`from statemod import bump as bmp; bmp(); import statemod; out.append(statemod.count)`,
 	`out.append(try(func() { error("e-%d", 3) }, func(e) { return string(e) }))`,
 	`out.append(try(func() { return 1 + "a" }, func(e) { return "type-error" }))`,
 	`n := 0; for i := 0; i < 40; i++ { n += i }; out.append(n); out.append(byte(65))`,
@@ -174,7 +177,7 @@ func genC09Program(g *sim.Stream) string {
 	for i := 0; i < n; i++ {
 		op := c09Ops[g.Intn(len(c09Ops))]
 		// every statement gets its own variable names
-		for _, v := range []string{"n", "t", "tr"} {
+		for _, v := range []string{"n", "t", "tr", "sm", "bmp"} {
 			op = regexp.MustCompile(`\b`+v+`\b`).ReplaceAllString(op, fmt.Sprintf("%s%d", v, i))
 		}
 		b.WriteString(op)
@@ -182,6 +185,33 @@ func genC09Program(g *sim.Stream) string {
 	}
 	b.WriteString("out\n")
 	return b.String()
+}
+
+// c09ModuleDir writes the shared modules to a scratch directory once per
+// process (for LocalImporter).
+var (
+	c09DirOnce sync.Once
+	c09Dir     string
+)
+
+func c09ModuleDir(files map[string]string) string {
+	c09DirOnce.Do(func() {
+		base := goos.Getenv("VERIF_OUT")
+		if base == "" {
+			base = goos.TempDir()
+		} else {
+			base = dirOf(base)
+		}
+		d, err := goos.MkdirTemp(base, "c09mods-")
+		if err != nil {
+			panic("harness: " + err.Error())
+		}
+		for n, t := range files {
+			goos.WriteFile(d+"/"+n, []byte(t), 0o644)
+		}
+		c09Dir = d
+	})
+	return c09Dir
 }
 
 // ---------------------------------------------------------------------------
@@ -318,9 +348,20 @@ func runC09(rc *fw.RunCtx) {
 	shareCode := g.Bool()
 	withClones := g.Chance(1, 3)
 	withCodecWriter := g.Chance(1, 2)
-	mfs := fstest.MapFS{"shared_mod.risor": &fstest.MapFile{Data: []byte("func triple(x) { return x * 3 }\n")}}
+	modFiles := map[string]string{
+		"shared_mod.risor": "func triple(x) { return x * 3 }\n",
+		"statemod.risor":   "count := 0\nfunc bump() { count = count + 1; return count }\n",
+	}
+	mfs := fstest.MapFS{}
+	for n, t := range modFiles {
+		mfs[n] = &fstest.MapFile{Data: []byte(t)}
+	}
 	names := c09GlobalNames()
+	useLocal := g.Bool()
 	newImporter := func() importer.Importer {
+		if useLocal {
+			return importer.NewLocalImporter(importer.LocalImporterOptions{GlobalNames: names, SourceDir: c09ModuleDir(modFiles), Extensions: []string{".risor"}})
+		}
 		return importer.NewFSImporter(importer.FSImporterOptions{GlobalNames: names, SourceFS: mfs, Extensions: []string{".risor"}})
 	}
 
